@@ -7,7 +7,8 @@ id=$1; wt=$2
 read -r dd rx pk < <(python3 - "$wt" <<'PY'
 import json,sys
 m=json.load(open(sys.argv[1]+'/SEED/meta.json'))
-pk=' '.join('./'+p.lstrip('./') for p in m.get('packages_tested',[m['demo_dir']]))
+import re
+pk=' '.join('./'+re.sub(r'^(\./|github.com/codenotary/immudb/)','',p.split()[0]).strip('/') for p in m.get('packages_tested',[m['demo_dir']]) if p and not p.startswith('('))
 print(m['demo_dir'].strip('./'), m['demo_run'].replace(' ','') , pk)
 PY
 )
@@ -20,7 +21,7 @@ python3 - "$id" "$wt" "$dst" <<'PY'
 import json,sys,re
 id,wt,dst=sys.argv[1:]
 a=json.load(open(wt+'/SEED/meta.json'))
-chk=open(f'/var/tmp/seedround-{id}.check').read()
+chk=open(f'/var/tmp/seedround-{id}.check',errors='replace').read()
 summ=[l for l in chk.splitlines() if l.startswith('SUMMARY')]
 rc=re.search(r'rc=(\d+)\s*$',chk).group(1)
 sigs=sorted(set(re.findall(r'violation signature[= ]+(\S+)',chk)))
